@@ -13,6 +13,9 @@ DONE = {
  "C15": ("42 theorems (Coq, closed): every built-in predicate/processor equals its documented relation over the mathematical object for all arguments of the admitted type (bounds on Z and exact rationals, NaN fails bounds, multiples as divisibility, lengths/counts, membership, prefix/suffix as list decomposition, not-blank <-> a non-whitespace char, strip decomposition and idempotence, ASCII case idempotence, typed uniqueness <-> typed_nodup). Tied by exhaustive evaluation of the bounded (parameter, argument) plane in Coq and on the implementation, plus an independent reference (Fraction arithmetic, slicing, pairwise comparison). Partial: regex and non-ASCII case mapping are oracles.", "8.C15"),
  "C16": ("Theorems C16_{decimal,uuid,date,datetime,tuple} (iff characterisations of the default coercers), never_coerced, subclass rejection, coercion error types (Coq, closed); C16_roundtrip_partial under the stated stdlib print/parse hypothesis. Tied by correspondence with per-case oracle tables from the real constructors, the regenerated coercer-shape fact (python ast -> Facts_coercers.v) and a direct comparison with the stdlib constructors. Partial: stdlib parsers are oracles.", "8.C16"),
  "C20": ("Theorems C20_call, C20_history (all finite histories of sync/async calls), C20_runs_iff_miss, C20_interleaved (every schedule of any number of overlapping async calls) on the cache state machine (Coq, closed). Tied by running exhaustive/sampled histories and all interleavings of 2-3 overlapping calls on a real CacheValidatorBase subclass with logged get/set and a run-counting wrapper, and by evaluating Model/Cache.history in Coq on the same histories.", "8.C20"),
+ "C14": ("Theorems C14_node (who = the validator at that position or the validator a transparent wrapper stands for; type/coercion failures hold the argument itself; every directly nested Invalid is, unchanged, the result of a child validator's run or a missing-key marker) and C14_tree (every node of every error tree names a validator reachable from the root) for all trees, inputs, entry points and fuel (Coq, closed). Tied by full-outcome correspondence (who resolved by object identity, values structurally) and an identity-walking oracle on live objects.", "8.C14"),
+ "C17": ("PARTIAL. Theorem C17_fixpoint_partial on the fragment Fixpoint.fp_ok (scalars, None, equality, lists / uniform tuples with count-only predicates, n-tuples, unions of input-returning variants, Optional, Maybe, Lazy, cache; arbitrarily nested) + stability of the built-in processors; the unrestricted statement is refuted in Coq (C17_refuted_container_predicates) and on the implementation - recorded as a known finding. Sets, maps and record validators are tied by re-feeding every accepted payload in model and implementation.", "8.C17"),
+ "C18": ("Theorems C18_ctx_{list,utuple,ntuple,set,map_value,record,maybe,lazy} (one-element contexts return exactly the inner verdict, payload and error, for every inner validator), C18_union_iff, C18_refine_{scalar_pred,list_pred,record_strict,class_required} (Coq, closed). Tied by wrapping generated validators in every context to depth 2 and by base/refined pairs, with a relational oracle on the live objects.", "8.C18"),
 }
 checks, na = [], []
 for p in props:
